@@ -13,8 +13,10 @@ type versionStream struct{}
 
 func init() { register(versionStream{}) }
 
-func (versionStream) Name() string          { return "version" }
-func (versionStream) TrivialTags() []string { return []string{"devices0", "devices1", "devices2", "devices3", "devices4"} }
+func (versionStream) Name() string { return "version" }
+func (versionStream) TrivialTags() []string {
+	return []string{"devices0", "devices1", "devices2", "devices3", "devices4"}
+}
 
 // feature placement: -1 = spec level, k>=0 = device k
 const (
@@ -23,7 +25,7 @@ const (
 	fRdt
 	fGids
 	fAnnotations
-	fDigitName // device only
+	fDigitName   // device only
 	fDottedClass // spec only
 	nFeatures
 )
